@@ -15,6 +15,7 @@ E11 the parser places every parsed sub-expression into the tree once: sugar neve
 E12 the lowering lowers every child expression of a node once: no child is cloned, none is lowered inside a loop over something else
 E13 every unrolled loop iteration is lowered in a scope of its own (push / pop inside the iteration)
 E14 a function body is lowered on the top-level scope plus its parameters (callee: Env::outermost_scope; entry function: parameters in a scope above the consts)
+E15 an assignment reads the assigned variable after its index and value expressions were lowered (their own writes to it survive)
 E10 cross-reference: the accessor copy of the array read tree agrees with the expression copy (C01-V8)
 """
 from .. import mir, protocol
@@ -837,5 +838,33 @@ def rule_e14(ctx):
     return res
 
 
+def rule_e15(ctx):
+    """`a[i] = v`: the index and the value are expressions of their own and may assign to `a` themselves (block expressions).  The
+    lowering has to read the current wires of the variable after it lowered them, otherwise their writes are overwritten by a stale
+    copy (`arr[0] = { arr[1] = 5u8; a };` lost the write to arr[1])."""
+    res = RuleResult("E15", "an assignment reads the assigned variable only after its index and value expressions have been lowered")
+    f = C02.fn_of(ctx, C02.STMT_COMPILE)
+    body = ctx.body(f["id"])
+    succ = body.pruned_succ({C02.INNER: "VarAssign"})
+    region = set(body.reachable([0], succ=succ))
+    reads = [b for b in region if body.term(b) and body.term(b)["k"] == "call" and (mir.callee(body.term(b)) or "").endswith("Env::<T>::get") and not body.blocks[b]["cleanup"]]
+    kids = []
+    for b in region:
+        t = body.term(b)
+        if t and t["k"] == "call" and not body.blocks[b]["cleanup"] and C02._is_compile_call(ctx, t) and t["args"] and t["args"][0]["k"] in ("copy", "move") \
+                and any(r == C02.SELF1 for (r, p) in body.trace(t["args"][0]["place"])):
+            kids.append(b)
+    if len(reads) != 1 or len(kids) < 2:
+        raise AnchorMissing("E15: expected one read of the variable and the lowering of index and value in the VarAssign arm (%d / %d)" % (len(reads), len(kids)))
+    late = [k for k in kids if body.path(reads[0], [k], succ=lambda x: [y for y in succ(x) if not body.blocks[y]["cleanup"]])]
+    if late:
+        res.bad(Finding("E15", f["id"], "variable read before its index / value expressions are lowered",
+                        "the wires of the assigned variable are taken from the environment before %d of its child expressions are lowered: an assignment to the same variable "
+                        "inside the index or the value is overwritten by the stale copy" % len(late), body.term(late[0])["sp"]))
+    else:
+        res.ok({"children": len(kids), "verdict": "the variable is read after all of them"})
+    return res
+
+
 def run(ctx):
-    return ctx.run_rules([rule_e1, rule_e2, rule_e3, rule_e4, rule_e5, rule_e6, rule_e7, rule_e8, rule_e9, rule_e10, rule_e11, rule_e12, rule_e13, rule_e14])
+    return ctx.run_rules([rule_e1, rule_e2, rule_e3, rule_e4, rule_e5, rule_e6, rule_e7, rule_e8, rule_e9, rule_e10, rule_e11, rule_e12, rule_e13, rule_e14, rule_e15])
